@@ -102,7 +102,7 @@ def _cm(t, st):
 
 def run(ctx):
     t_start = time.time()
-    ok, why = ctx.proof_stage("Props.C01", ["eval_correct", "check_answer_alarm_sound", "placeholder_generic", "unique_sound_exact", "f14_refuted", "f1_refuted"])
+    ok, why = ctx.proof_stage("Props.C01", ["eval_correct", "check_answer_alarm_sound", "placeholder_generic", "unique_sound_exact", "f14_refuted", "f1_refuted", "f7q_refuted"])
     if not ok:
         ctx.violation({"kind": "proof", "broken": why}, no_input=True)
         return
@@ -150,7 +150,13 @@ def run(ctx):
             cm.append(row)
         defs[cn] = ("list (list ty)", cm)
         exprs.append(([pn, qn], logic.bb("fragment_ok %s %s" % (pn, qn))))
-        exprs.append(([pn, qn], "((if f14_class %s %s then 1 else 0) + (if f1_class %s %s then 2 else 0))%%N" % (pn, qn, pn, qn)))
+        gclosed = "g%d" % k
+        is_closed = (len(ubs) == 0 and m == 0)
+        if is_closed:
+            defs[gclosed] = ("goal", pg.goal_model(it.goal, st))
+        exprs.append(([pn, qn] + ([gclosed] if is_closed else []),
+                      "((if f14_class %s %s then 1 else 0) + (if f1_class %s %s then 2 else 0) + %s)%%N"
+                      % (pn, qn, pn, qn, ("(if f7q_class %d %s %s then 4 else 0)" % (FUEL, pn, gclosed)) if is_closed else "0")))
         meta.append((k, None, "frag"))
         meta.append((k, None, "class"))
         for sname in ("slg", "rec"):
@@ -189,7 +195,9 @@ def run(ctx):
         nontrivial = kind in ("Unique", "NoSolution", "AmbigDefinite")
         ctx.count(sname, (it.key(), sname), nontrivial=nontrivial)
         hist["%s:%s:%s:%s" % (sname, it.kind, kind, v.split(":")[0])] += 1
-        in_f14, in_f1 = bool(cls[k] & 1), bool(cls[k] & 2)
+        in_f14, in_f1, in_f7q = bool(cls[k] & 1), bool(cls[k] & 2), bool(cls[k] & 4)
+        if in_f7q:
+            class_items["F7q"] += 1
         if in_f14:
             class_items["F14"] += 1
         if in_f1:
@@ -202,6 +210,8 @@ def run(ctx):
                 f = ctx.match_known(None, "F14")
             if not f and sname == "slg" and in_f1 and c == 12 and kind == "AmbigDefinite":
                 f = ctx.match_known(None, "F1")
+            if not f and sname == "slg" and in_f7q and c == 13 and kind == "NoSolution":
+                f = ctx.match_known(None, "F7q")
             if f:
                 ctx.known_finding(f, "%s | %s | %s" % (sname, it.goal_text, sx.to_sexp(ans)[:120]))
                 ctx.cov["known_class_hits"] = ctx.cov.get("known_class_hits", 0) + 1
